@@ -550,9 +550,12 @@ func (s *ObjectStorage) HasEncodedObject(h plumbing.Hash) (err error) {
 	// Existence-only on the loose path: Stat instead of Open
 	// avoids a per-call open()+close() pair when the object lives
 	// in loose.
+	// With ExclusiveAccess a missing loose object is reported as
+	// plumbing.ErrObjectNotFound rather than a not-exist error: both
+	// mean "not here", so the alternates are still consulted.
 	if _, statErr := s.dir.ObjectStat(h); statErr == nil {
 		return nil
-	} else if !os.IsNotExist(statErr) {
+	} else if !os.IsNotExist(statErr) && !errors.Is(statErr, plumbing.ErrObjectNotFound) {
 		return statErr
 	}
 	if idxErr != nil {
